@@ -5,7 +5,8 @@ import witness
 EXPLANATION = ("Decision tables extracted from MIR (every path of the function) are compared, row by row, with reference "
                "tables transcribed from RFC 9114 / draft-ietf-webtrans-http3 (spec/h3.json): the four validate_frame tables, "
                "the eight read_frame(_async) error mappings, uniremote upgrade mappings, the control/QPACK stream runners, "
-               "the worker's uni/bidi H3 handlers, every ErrorCode wire value, and the close code used by Worker::run.")
+               "the worker's uni/bidi H3 handlers, every ErrorCode wire value, and the close code used by Worker::run."
+               ' Also (C12-R7): on the client side of the CONNECT stream the first non-GREASE response frame must be HEADERS, anything else is H3_FRAME_UNEXPECTED.')
 NOT_DECIDED = ["what quinn puts on the wire for close/stop", "frame sequences beyond the per-frame tables and the two state bits (first_frame_done, settings received)"]
 TRUSTED = ["rustc nightly MIR construction", "spec/h3.json transcription", "quinn close()/stop() semantics"]
 
